@@ -32,6 +32,12 @@ func newFetcher(cache cache.Cache[cachedRequestInfo], cfg *config.Config) fetche
 	}
 }
 
+// Reports whether err means that the cache could not store, update or hand out an entry,
+// as opposed to the upstream request itself failing.
+func isCacheSideError(err error) bool {
+	return errors.Is(err, ErrCacheResponseFailed) || errors.Is(err, ErrUpdateCacheMetadata)
+}
+
 func (f *fetcher) shouldResponseBeCached(resp *http.Response, upstreamHd *headers.HeaderDirectives) bool {
 	return upstreamHd.ShouldCache(f.cfg.Proxy.CachePolicy.IgnoreCacheControl.Read()) &&
 		resp.StatusCode == http.StatusOK &&
@@ -52,7 +58,12 @@ func (f *fetcher) handleUpstream304(req *http.Request, key cache.CacheKey) (cach
 	}
 
 	slog.Debug("Successfully revalidated cache metadata", "url", req.URL, "key", key)
-	return f.cache.Get(key)
+	cached, err = f.cache.Get(key)
+	if err != nil {
+		// The entry was evicted between the update and the lookup.
+		return nil, fmt.Errorf("%w: %v", ErrUpdateCacheMetadata, err)
+	}
+	return cached, nil
 }
 
 func (f *fetcher) handleUpstream200(req *http.Request, resp *http.Response, key cache.CacheKey, upstreamHd *headers.HeaderDirectives) (cached *cache.Entry[cachedRequestInfo], err error) {
@@ -234,6 +245,11 @@ func (f *fetcher) getFromCacheOrFetch(req *http.Request, key cache.CacheKey, cli
 			slog.Debug("Cache miss, will fetch from upstream.", "url", req.URL, "key", key)
 			res, err := f.handleCacheMiss(req, key, clientHd)
 			if err != nil {
+				if isCacheSideError(err) {
+					// The upstream answered, only the cache could not take the response
+					// (full, empty body, write error): serve the client directly instead of failing.
+					return fetchResult{}, ErrNotCacheable
+				}
 				return fetchResult{}, err
 			}
 			if res.Type == fetchTypeDirect {
@@ -276,6 +292,10 @@ func (f *fetcher) getFromCacheOrFetch(req *http.Request, key cache.CacheKey, cli
 
 	fetch, err := f.fetchUpstream(up, key, clientHd)
 	if err != nil {
+		if isCacheSideError(err) {
+			// E.g. a 304 for an entry that was evicted meanwhile: fetch again without the cache.
+			return fetchResult{}, ErrNotCacheable
+		}
 		return fetchResult{}, err
 	}
 	if fetch.Type == fetchTypeDirect {
@@ -299,7 +319,12 @@ func (f *fetcher) dedupFetch(req *http.Request, key cache.CacheKey, clientHd *he
 		slog.Debug("Request can't be coalesced, fetching upstream...")
 		metrics.Global.Requests.NonCoalescedRequests.Increment()
 
-		return f.fetchUpstream(req, key, clientHd)
+		fetched, err = f.fetchUpstream(req, key, clientHd)
+		if err != nil && isCacheSideError(err) {
+			slog.Debug("Cache could not take the upstream response, falling back to direct fetch", "url", req.URL, "error", err)
+			return f.fetchDirectlyFromUpstream(req)
+		}
+		return fetched, err
 	}
 
 	originalClientHd := *clientHd // Copy the original client headers so the shared requests don't get a modified version
